@@ -38,7 +38,7 @@ for line in commits:
     mapping[h[:7]] = new
     print("picked %s -> %s  %s" % (h[:7], new, subj))
 # framework
-print(sh("git", "-C", "/verif", "merge", "--no-edit", "-q", "w" + pid, check=False))
+print(sh("git", "-C", "/verif", "merge", "--no-edit", "-q", "-X", "ours", "w" + pid, check=False))
 f = "/verif/findings_%s.json" % pid
 if os.path.exists(f):
     data = json.load(open(f))
